@@ -188,7 +188,8 @@ func (c SeriesCheck) Check(ctx context.Context, entry discovery.Entry, entries [
 			var arEntry *discovery.Entry
 			if alertname != "" {
 				for _, entry := range entries {
-					if entry.Rule.AlertingRule != nil &&
+					if entry.State != discovery.Removed &&
+						entry.Rule.AlertingRule != nil &&
 						entry.Rule.Error.Err == nil &&
 						entry.Rule.AlertingRule.Alert.Value == alertname {
 						arEntry = &entry
@@ -304,7 +305,8 @@ func (c SeriesCheck) Check(ctx context.Context, entry discovery.Entry, entries [
 			// Check if we have recording rule that provides this metric before we give up
 			var rrEntry *discovery.Entry
 			for _, entry := range entries {
-				if entry.Rule.RecordingRule != nil &&
+				if entry.State != discovery.Removed &&
+					entry.Rule.RecordingRule != nil &&
 					entry.Rule.Error.Err == nil &&
 					entry.Rule.RecordingRule.Record.Value == bareSelector.String() {
 					rrEntry = &entry
